@@ -207,26 +207,38 @@ def build_eh_frame(fdes, arch, order=None, n_cies=1, pcrel_base=None, mixed=None
     offsets = {}
     n_cies = max(1, n_cies)
     if mixed is not None:
-        svma, rng = mixed
+        svma, rng = mixed[0], mixed[1]
+        text_svma, got_svma = (mixed[2], mixed[3]) if len(mixed) > 3 else (None, None)
         small = all(f["start"] + f["len"] < (1 << 32) for f in fdes)
         near = all(abs(f["start"] - svma) < (1 << 30) for f in fdes)
         cies = []
         for c in range(n_cies):
             encs = [None, 0x00, 0x1c] + ([0x03] if small else []) + ([0x1b] if near else [])
+            if text_svma is not None and all(abs(f["start"] - text_svma) < (1 << 30) for f in fdes):
+                encs += [0x2b, 0x3b]          # text-relative and data-relative (.got) function addresses
             enc = encs[(c + rng.below(len(encs))) % len(encs)] if c else rng.choice(encs)
             if c and enc == cies[0][1] and len(encs) > 1:
                 enc = encs[(encs.index(enc) + 1) % len(encs)]
             cie_off = len(out)
+            lsda = None
             if enc is None:
                 body = struct.pack("<I", 0) + b"\x01" + b"\x00" + uleb(1) + sleb(1) + bytes([ra_reg])
+            elif c % 2 == 1:
+                # C++ style: personality routine and LSDA pointers ("zPLR"), the personality data-relative (to .got),
+                # pc-relative or absolute; framehop has no use for either but the CIE and its FDEs must still parse
+                penc = rng.choice([0x3b, 0x9b, 0x00, 0x1b])            # datarel|sdata4, indirect|pcrel|sdata4, absptr, pcrel|sdata4
+                lsda = rng.choice([0x1b, 0x00, 0x3b])
+                pptr = struct.pack("<Q", 0x123456) if penc == 0x00 else struct.pack("<i", 0x1234)
+                aug = bytes([penc]) + pptr + bytes([lsda]) + bytes([enc])
+                body = struct.pack("<I", 0) + b"\x01" + b"zPLR\x00" + uleb(1) + sleb(1) + bytes([ra_reg]) + uleb(len(aug)) + aug
             else:
                 body = struct.pack("<I", 0) + b"\x01" + b"zR\x00" + uleb(1) + sleb(1) + bytes([ra_reg]) + uleb(1) + bytes([enc])
             body = pad_to_len(body)
             out += struct.pack("<I", len(body)) + body
-            cies.append((cie_off, enc))
+            cies.append((cie_off, enc, lsda))
         for j, i in enumerate(order):
             f = fdes[i]
-            cie_off, enc = cies[j % n_cies]
+            cie_off, enc, lsda = cies[j % n_cies]
             fde_off = len(out)
             offsets[i] = fde_off
             cie_ptr = fde_off + 4 - cie_off
@@ -237,9 +249,19 @@ def build_eh_frame(fdes, arch, order=None, n_cies=1, pcrel_base=None, mixed=None
                 addr = struct.pack("<II", f["start"], f["len"])
             elif enc == 0x1b:
                 addr = struct.pack("<i", f["start"] - field_addr) + struct.pack("<I", f["len"])
+            elif enc == 0x2b:
+                addr = struct.pack("<i", f["start"] - text_svma) + struct.pack("<I", f["len"])
+            elif enc == 0x3b:
+                addr = struct.pack("<i", f["start"] - got_svma) + struct.pack("<I", f["len"])
             else:
                 addr = struct.pack("<q", f["start"] - field_addr) + struct.pack("<Q", f["len"] & M64)
-            aug = b"" if enc is None else uleb(0)
+            if enc is None:
+                aug = b""
+            elif lsda is None:
+                aug = uleb(0)
+            else:
+                lp = struct.pack("<Q", 0x654321) if lsda == 0x00 else struct.pack("<i", 0x4321)
+                aug = uleb(len(lp)) + lp
             body = struct.pack("<I", cie_ptr) + addr + aug + fde_insns(f, arch)
             body = pad_to_len(body)
             out += struct.pack("<I", len(body)) + body
@@ -387,9 +409,14 @@ class Script:
             data, offs = build_debug_frame(sec_fdes, self.arch, None, n_cies, mixed)
             secs.append((".debug_frame", data, None))
         else:
+            text_svma, got_svma = base_svma + 0x800, base_svma + 0x280000
             data, offs = build_eh_frame(sec_fdes, self.arch, None, n_cies, eh_svma if pcrel else None,
-                                        (eh_svma, rng) if mixed and rng is not None else None)
+                                        (eh_svma, rng, text_svma, got_svma) if mixed and rng is not None else None)
             secs.append((".eh_frame", data, (eh_svma, eh_svma + len(data))))
+            if mixed and rng is not None:
+                # the address ranges of the sections that relative pointer encodings refer to
+                secs.append((".text", None, (text_svma, text_svma + 0x100000)))
+                secs.append((".got", None, (got_svma, got_svma + 0x100)))
             if pres == "hdr":
                 hdr = build_eh_frame_hdr(sec_fdes, offs, eh_svma, hdr_svma, hdr_enc)
                 secs.append((".eh_frame_hdr", hdr, (hdr_svma, hdr_svma + len(hdr))))
@@ -520,6 +547,7 @@ def module_pe(script, mid, start, end, base_avma, base_svma, funcs, uinfos, text
     secs, a, rva = build_pe(funcs, uinfos, text_lo, text_bytes, xdata_rva, rdata_ids, text_hi)
     b = [str(len(secs))]
     for name, data, rngs in secs:
-        b += [name, hexs(data)] + ([hx(base_svma + rngs[0]), hx(base_svma + rngs[1])] if rngs else ["-", "-"])
+        # "." = the section is present and empty (an image without a single table entry), "-" = no such section
+        b += [name, hexs(data) if data else "."] + ([hx(base_svma + rngs[0]), hx(base_svma + rngs[1])] if rngs else ["-", "-"])
     script.add("mod %s %s %s %s %s A %s B %s" % (mid, hx(start), hx(end), hx(base_avma), hx(base_svma), " ".join(a), " ".join(b)))
     return rva
